@@ -138,6 +138,12 @@ def witness_corpus(pid, sources, jobs=16):
         o1 = udiff.apply(sources, open(rd, encoding="utf-8").read())
         if o1 is None:
             continue
+        try:
+            rmeta = json.load(open(os.path.join(os.path.dirname(rd), "meta.json")))
+        except Exception:
+            rmeta = {}
+        undecided_base = pid in rmeta.get("checks_answering_cannot_decide", [])
+        rname = os.path.basename(os.path.dirname(rd))
         src1 = dict(sources)
         src1.update(o1)
         for md in sorted(glob.glob(os.path.join(VERIF, "seeded", pid + "-*", "patch.diff"))):
@@ -147,13 +153,15 @@ def witness_corpus(pid, sources, jobs=16):
                 continue
             if pid not in meta.get("checks_reporting_violation", []):
                 continue
+            if rname in meta.get("not_broken_after", {}):
+                continue        # the refactoring removes the code the defect needs: the composition was run and is correct
             o2 = udiff.apply(src1, open(md, encoding="utf-8").read())
             if o2 is None:
                 continue
             ov = dict(o1)
             ov.update(o2)
-            work.append(("catch", (pid, "composed:" + os.path.basename(os.path.dirname(rd)) + "+" +
-                                   os.path.basename(os.path.dirname(md)), ov)))
+            work.append(("catch-or-undecided" if undecided_base else "catch",
+                         (pid, "composed:" + rname + "+" + os.path.basename(os.path.dirname(md)), ov)))
     results = []
     if work:
         import multiprocessing as mp
@@ -167,6 +175,8 @@ def witness_corpus(pid, sources, jobs=16):
             problems.append(f"witness mutation '{name}' applied but was not reported ({status}: {info[:1]})")
         if kind == "silent" and status != "pass":
             problems.append(f"equivalence refactoring '{name}' is not accepted silently ({status}: {info[:2]})")
+        if kind == "catch-or-undecided" and status not in ("violation", "error"):
+            problems.append(f"witness mutation '{name}' applied on a refactoring recorded as not decided passes ({status})")
         if kind == "undecided-ok" and status not in ("pass", "error"):
             problems.append(f"equivalence refactoring '{name}' (recorded as not decided) is reported ({status}: {info[:2]})")
     return {"witnesses_applied": len(work), "witnesses_not_applicable": skipped, "witness_results": report}, problems
